@@ -190,7 +190,7 @@ func (Engine) drawPlan(rt *rapid.T, prop, tier string) any {
 			for n := rapid.IntRange(60, 90).Draw(rt, "nemptymore"); n > 0; n-- {
 				b := BlockPlan{}
 				if n%7 == 0 {
-					b.Ops = []Op{{Kind: OpLedgerRead, A: n % numAccounts, B: n % numContracts, N: int64(n), X: n % 4, Y: (n / 7) % 4}}
+					b.Ops = []Op{{Kind: OpLedgerRead, A: n % numAccounts, B: n % numContracts, N: int64(n), X: n % 4, Y: (n / 7) % 8}}
 				}
 				p.Blocks = append(p.Blocks, b)
 			}
